@@ -53,7 +53,27 @@ def np_array(a):
         arr = np.array([float(v) for v in a["vals"]], dtype=dt)
     else:
         arr = np.array([int(v) for v in a["vals"]], dtype=dt)
-    return arr.reshape(a["shape"])
+    return with_memory_layout(arr.reshape(a["shape"]))
+
+
+def with_memory_layout(arr):
+    """the same array (equal shape, dtype and values) in one of several memory layouts, chosen by a checksum of its content:
+    C order, Fortran order, a strided view, a reversed-then-reversed view (negative strides), a transposed copy"""
+    if arr.ndim == 0 or arr.size == 0 or arr.dtype.kind in "US":
+        return arr
+    import zlib
+    k = zlib.crc32(arr.tobytes() + str(arr.shape).encode()) % 6
+    if k == 1 and arr.ndim >= 2:
+        return np.asfortranarray(arr)
+    if k == 2:
+        big = np.zeros((2 * arr.shape[0] + 1, *arr.shape[1:]), dtype=arr.dtype)
+        big[1::2] = arr
+        return big[1::2]
+    if k == 3:
+        return np.ascontiguousarray(arr[::-1])[::-1]
+    if k == 4 and arr.ndim >= 2:
+        return np.ascontiguousarray(arr.T).T
+    return arr
 
 
 def coq_scalar(dt, v):
